@@ -23,6 +23,11 @@ def run(ctx):
             vs = vs[::-1]
         mode = it % 3          # 0: polygon, 1: quadratic pieces, 2: cubic pieces
         ctrl = [[vs[i], vs[(i + 1) % len(vs)]] for i in range(len(vs))] if mode == 0 else rounded(vs, cubic=(mode == 2))
+        if it == 1:
+            # deterministic entry (finding K9): a closed curve of quadratic pieces whose FIRST piece is a straight line in disguise
+            K9 = [[("-9/8", "11/4"), ("-1", "17/4"), ("-7/8", "23/4")], [("-7/8", "23/4"), ("-3/4", "29/4"), ("-31/8", "55/8")], [("-31/8", "55/8"), ("-7", "13/2"), ("-13/2", "25/8")],
+                  [("-13/2", "25/8"), ("-6", "-1/4"), ("-21/4", "3/8")], [("-21/4", "3/8"), ("-9/2", "1"), ("-23/8", "9/8")], [("-23/8", "9/8"), ("-5/4", "5/4"), ("-9/8", "11/4")]]
+            ctrl = [[(F(x), F(y)) for x, y in c] for c in K9]
         desc = {"ctrl": ctrl}
         ctx.sample(core.jsonable(desc), limit=2)
         curves = {}
@@ -43,6 +48,7 @@ def run(ctx):
         ctrl_eff = ctrl if mode == 0 else [[tuple(p) for p in core.dseg(drv.ask("cleanseg " + core.eseg(c)))] for c in ctrl]
         if ctrl_eff != [[tuple(p) for p in c] for c in ctrl]:
             ctx.count("description-with-reducible-piece")
+        sig17 = {"family": "constructors", "has_reducible_piece": ctrl_eff != [[tuple(p) for p in c] for c in ctrl]}
         tok = core.ejordan_ctrl(ctrl_eff)
         exp_vertices = core.dpts(drv.ask("vertices " + tok))
         eb = core.Toks(drv.ask("jbox " + tok)); elo, ehi = eb.pt(), eb.pt()
@@ -55,7 +61,7 @@ def run(ctx):
                 ok = len(got_v) == len(exp_vertices) and all(abs(float(a) - float(b)) < 1e-9 for g, e in zip(got_v, exp_vertices) for a, b in zip(g, e))
                 ctx.check(ok, "vertices of from_full_curve", d2, exp_vertices, got_v)
             else:
-                ctx.check(got_v == exp_vertices, "vertices are not each control point once, in order", d2, exp_vertices, got_v)
+                ctx.check(got_v == exp_vertices, "vertices are not each control point once, in order", d2, exp_vertices, got_v, sig=sig17)
                 ctx.check(shapes.geom(J) == [[tuple(p) for p in c] for c in ctrl_eff], "segments differ from the description", d2)
                 b = J.box()
                 ctx.check((tuple(b.lowpt), tuple(b.toppt)) == (elo, ehi), "box()", d2, (elo, ehi), (tuple(b.lowpt), tuple(b.toppt)))
@@ -64,7 +70,7 @@ def run(ctx):
             ctx.check((float(J) > 0) == (earea > 0), "sign of float(curve) is not the orientation", d2)
             # junction objects are shared, every other control point appears once
             segs = J.segments
-            ctx.check(all(segs[i].ctrlpoints[-1] is segs[(i + 1) % len(segs)].ctrlpoints[0] for i in range(len(segs))), "junction points are not shared objects", d2)
+            ctx.check(all(segs[i].ctrlpoints[-1] is segs[(i + 1) % len(segs)].ctrlpoints[0] for i in range(len(segs))), "junction points are not shared objects", d2, sig=sig17)
             for s in segs[:3]:
                 for t in (F(1, 3), F(1, 2), F(9, 10)):
                     ctx.check(s(t) in J.box(), "box() does not enclose a curve point", d2)
